@@ -207,9 +207,21 @@ def main(argv: list[str]) -> int:
                 c = strip_case(c)
                 c["src"] = f"corpus:{f.name}"
                 cases.append(c)
-    for c in plugin.gen(rng, tier):
-        c.setdefault("src", "gen")
-        cases.append(c)
+    # thorough tier: a plug-in whose single pass is cheap asks for several passes with derived PRNG states
+    # (THOROUGH_ROUNDS); cases identical to one already generated (the seed-independent enumerated slices) are dropped
+    rounds = int(os.environ.get("VERIF_ROUNDS") or (getattr(plugin, "THOROUGH_ROUNDS", 1) if tier == "thorough" else 1))
+    seen_cases: set[str] = set()
+    for k in range(max(1, rounds)):
+        r_k = rng if k == 0 else random.Random(f"{seed}:{k}")
+        for c in plugin.gen(r_k, tier):
+            c.setdefault("src", "gen" if k == 0 else f"gen:{k}")
+            if rounds > 1:
+                key = hashlib.sha1(canon({"op": c.get("op"), "case": c.get("case")}).encode()).hexdigest()
+                if key in seen_cases:
+                    continue
+                seen_cases.add(key)
+            cases.append(c)
+    del seen_cases
     for i, c in enumerate(cases):
         c["id"] = i
 
@@ -383,6 +395,7 @@ def main(argv: list[str]) -> int:
             "theorems_declared": all_thms,
             "model_ops": model_ops,
             "evaluations": len(cases),
+            "generator_rounds": rounds,
             "model_evaluations": n_model,
             "distinct_nontrivial": len(nontrivial),
             "rule": getattr(plugin, "RULE", ""),
